@@ -541,7 +541,7 @@ class base_pairs_body(base_pairs_callee):
         "implies(no_self_pairs(self), no_self(result))",
     ]
     ensures_labels = {0: "each-once", 1: "only-resolvable-input-pairs", 2: "every-resolvable-pair-and-its-reverse", 3: "no-self-pairs"}
-    loops = {0: {"index": "c", "inv": ["used_has(used, result)", "used_only(used, result)", "distinct(result)", "lifted_from(self, result, c)", "lifts_all(self, result, c)"]}}
+    loops = {0: {"index": "c", "inv": ["len(result) >= 0", "used_has(used, result)", "used_only(used, result)", "distinct(result)", "lifted_from(self, result, c)", "lifts_all(self, result, c)"]}}
     ghost = [
         {"when": "after", "at": "bp = BasePair3D(", "label": "lifted", "do": ["assert resolvable(self, base_pair) and is_lift(self, bp, base_pair)"]},
         {"when": "before", "at": "result.append(bp)", "label": "r0", "do": ["let R0 = result"]},
